@@ -360,7 +360,7 @@ pub fn run(cfg: &RunCfg) -> i32 {
   crate::replay_known::<Case>(&mut report, &known, check);
   let thorough = cfg.tier == Tier::Thorough;
   let runs = if thorough { 12 } else { 6 };
-  let total = cfg.budget(120, 1_500);
+  let total = cfg.budget(120, 5_000);
   let o = drive(cfg, "trees", total, &known, || strategy(runs), interpret, check);
   report.absorb("trees", o);
   cli::cleanup_work_root();
